@@ -12,8 +12,8 @@ spec('mac_ok', {'data': Bytes, 'k': Rec('Crypto')}, Bool,
 
 c = CONTRACTS['message.PayloadSK.decrypt']
 c.ensures += _clauses({
-    'C07:iv': 'result._0 == self.ciphertext[:16]',
-    'C07:plain': 'result._1 == unpad(aes_dec(crypto.sk_e, self.ciphertext[:16], '
+    'C05,C07:iv': 'result._0 == self.ciphertext[:16]',
+    'C05,C07:plain': 'result._1 == unpad(aes_dec(crypto.sk_e, self.ciphertext[:16], '
                  'self.ciphertext[16:len(self.ciphertext) - crypto.integrity.keybits // 8]))',
 }, 'ensures', ['C07'])
 
@@ -29,6 +29,9 @@ c.ensures += _clauses({
                   'and result.is_initiator == (be_at(data, 19, 1) // 8 % 2 == 1) '
                   'and result.message_id == be_at(data, 20, 4)',
     'C05:header-only': 'implies(header_only, len(result.payloads) == 0 and len(result.encrypted_payloads) == 0)',
+    # the cleartext chain (first payload type = header octet 16) must end exactly at the end of the DATAGRAM
+    'C05:chain-ends-at-datagram-end': 'implies(not header_only, '
+                                      'chain_end(data[28:], be_at(data, 16, 1), 0) == len(data) - 28)',
 }, 'ensures', ['C07'])
 
 lemma('C07/roundtrip',
